@@ -502,6 +502,7 @@ type scanPath struct {
 	end      string    // eval | return | loop | other
 	endPos   token.Pos
 	lastBlk  *ssa.BasicBlock
+	lastPrev *ssa.BasicBlock // the block the walk came from (to resolve a phi condition on this path)
 }
 
 func analyseScanLoop(c *Ctx, rule string, fn *ssa.Function, advObj, evalObj types.Object, errorState int64) *scanLoop {
@@ -588,7 +589,49 @@ func analyseScanLoop(c *Ctx, rule string, fn *ssa.Function, advObj, evalObj type
 		"the transition function runs on a path where Next()'s error was not tested to be nil")
 
 	if len(sl.sites) == 0 {
-		c.Fail(rule, "scan loop: the evaluation method is called", pos, "no call of the evaluation method (directly or through a wrapper) in the scan function")
+		// another division of labour: the scan function only runs the automaton and hands back the state it stopped in, and
+		// its caller evaluates that state. Each return of a state without an error is then where the evaluation happens.
+		var g *ssa.Function
+		var e *ssa.Call
+		if fn.Signature.Results().Len() >= 1 && isInt(fn.Signature.Results().At(0).Type()) {
+			for _, cand := range allFuncsOfPkg(fn.Pkg) {
+				allCalls(cand, func(call ssa.CallInstruction) {
+					cv, ok := call.(*ssa.Call)
+					if !ok {
+						return
+					}
+					if f := calleeFunc(call); f == nil || types.Object(f) != evalObj {
+						return
+					}
+					arg := cv.Call.Args[len(cv.Call.Args)-1]
+					if ex, ok := arg.(*ssa.Extract); ok && ex.Index == 0 {
+						if src, ok := ex.Tuple.(*ssa.Call); ok && src.Call.StaticCallee() == fn {
+							g, e = cand, cv
+						}
+					}
+					if src, ok := arg.(*ssa.Call); ok && src.Call.StaticCallee() == fn {
+						g, e = cand, cv
+					}
+				})
+			}
+		}
+		if g != nil {
+			for _, b := range fn.Blocks {
+				ret, ok := b.Instrs[len(b.Instrs)-1].(*ssa.Return)
+				if !ok || len(ret.Results) == 0 {
+					continue
+				}
+				if len(ret.Results) >= 2 && !isNilConst(ret.Results[len(ret.Results)-1]) {
+					continue // an error is handed back: nothing is evaluated
+				}
+				st := &evalSite{call: e, state: ret.Results[0], outFn: g, evalCall: e}
+				sl.sites = append(sl.sites, st)
+				siteOf[ret] = st
+			}
+		}
+	}
+	if len(sl.sites) == 0 {
+		c.Undecided(rule, "scan loop: the evaluation method is called", pos, "no call of the evaluation method (directly, through a wrapper, or by the caller on the state handed back) was found for the scan function")
 		return sl
 	}
 	c.Pass(rule, "scan loop: the evaluation method is called", pos, "")
@@ -623,6 +666,12 @@ func analyseScanLoop(c *Ctx, rule string, fn *ssa.Function, advObj, evalObj type
 			}
 			switch t := in.(type) {
 			case *ssa.Return:
+				if st, ok := siteOf[t]; ok {
+					p.site, p.end, p.endPos = st, "eval", t.Pos()
+					q := p
+					paths = append(paths, &q)
+					return
+				}
 				p.end, p.endPos = "return", t.Pos()
 				q := p
 				paths = append(paths, &q)
@@ -634,13 +683,42 @@ func analyseScanLoop(c *Ctx, rule string, fn *ssa.Function, advObj, evalObj type
 					paths = append(paths, &q)
 					return
 				}
+				p.lastPrev = b
 				walk(b.Succs[0], 0, p, depth+1)
 				return
 			case *ssa.If:
+				// a condition written with || or && arrives as a phi of the operands: on this path the operand is the edge of the
+				// block we came from; a negation flips the polarity
+				rcond, neg := t.Cond, false
+				for i := 0; i < 6; i++ {
+					if ph, ok := rcond.(*ssa.Phi); ok && ph.Block() == b && p.lastPrev != nil {
+						found := false
+						for pi, pb := range b.Preds {
+							if pb == p.lastPrev {
+								rcond = ph.Edges[pi]
+								found = true
+							}
+						}
+						if found {
+							continue
+						}
+					}
+					if u, ok := rcond.(*ssa.UnOp); ok && u.Op == token.NOT {
+						rcond, neg = u.X, !neg
+						continue
+					}
+					break
+				}
 				for k, succ := range b.Succs {
 					q := p
-					pol := k == 0
-					cond := t.Cond
+					q.lastPrev = b
+					pol := (k == 0) != neg
+					cond := rcond
+					if kc, ok := cond.(*ssa.Const); ok && kc.Value != nil && kc.Value.Kind() == constant.Bool {
+						if constant.BoolVal(kc.Value) != pol {
+							continue // this operand already decided the condition the other way
+						}
+					}
 					if sl.nextErr != nil {
 						if nn, ok := isNilCheck(cond, sl.nextErr); ok {
 							if nn == pol {
